@@ -82,10 +82,14 @@ def readFramesAtTime(
     params = audiofile.getparams()
     frameRate = params[2]
 
+    nframes = params[3]
+
     # Round both ends to the nearest frame (as Wav.getFrames does) instead of
-    # rounding the duration: off a frame boundary the two disagree by a frame
-    startFrame = round(frameRate * startTime)
-    endFrame = round(frameRate * endTime)
+    # rounding the duration: off a frame boundary the two disagree by a frame.
+    # Times outside of the file address its first / last frame boundary (as
+    # Wav.getFrames does); setpos() would raise or wrap around otherwise
+    startFrame = min(max(round(frameRate * startTime), 0), nframes)
+    endFrame = min(max(round(frameRate * endTime), 0), nframes)
     audiofile.setpos(startFrame)
     frames = audiofile.readframes(max(endFrame - startFrame, 0))
 
@@ -321,7 +325,14 @@ class Wav(AbstractWav):
         """Gets the index in the frame list for the given time"""
         # Round to the nearest sample first so that the index never
         # falls in the middle of a multi-byte sample
-        return round(startTime * self.frameRate) * self.sampleWidth
+        sampleIndex = round(startTime * self.frameRate)
+
+        # Times outside of the recording address its first / last sample
+        # boundary; a negative index would count from the end of the frames
+        numSamples = len(self.frames) // self.sampleWidth
+        sampleIndex = min(max(sampleIndex, 0), numSamples)
+
+        return sampleIndex * self.sampleWidth
 
     @classmethod
     def open(cls, fn: str) -> "Wav":
